@@ -25,9 +25,16 @@ pub struct ConIterOfVec<T: Send + Sync> {
 
 impl<T: Send + Sync> Drop for ConIterOfVec<T> {
     fn drop(&mut self) {
-        let current = self.counter().current();
-        if current <= self.vec_len {
-            let _remaining_vec_to_be_dropped = unsafe { self.split_off_right(current) };
+        let vec = unsafe { &mut *self.vec.get() };
+        let len = vec.len();
+        let begin = self.counter().current().min(len);
+        // SAFETY: elements before `begin` are moved out to the callers, elements in `begin..len` are still owned
+        // by the vec and are dropped here; afterwards the vec only has its buffer to release
+        unsafe {
+            let remaining = std::ptr::slice_from_raw_parts_mut(vec.as_mut_ptr().add(begin), len - begin);
+            vec.set_len(0);
+            std::ptr::drop_in_place(remaining);
+            ManuallyDrop::drop(vec);
         }
     }
 }
@@ -123,7 +130,12 @@ impl<T: Send + Sync> AtomicIter<T> for ConIterOfVec<T> {
     }
 
     fn early_exit(&self) {
-        self.counter().store(self.vec_len)
+        // reserves all positions at once: the positions which had not been reserved before belong to this call,
+        // they will never be delivered and are dropped here
+        let begin = self.counter().fetch_and_add(self.vec_len);
+        if begin < self.vec_len {
+            drop(unsafe { self.take_slice(begin, self.vec_len - begin) });
+        }
     }
 }
 
